@@ -28,7 +28,7 @@ REQUIRED_CLASSES = ['print:ts', 'print:decimal', 'print:near_integer', 'print:cu
                     'parse:repeat', 'parse:decimal', 'parse:omitted', 'parse:ts', 'parse:blanks', 'parse:ring_file',
                     'unknown:reactant', 'unknown:product', 'unknown:ts',
                     'balance:balanced', 'balance:off_by_one', 'balance:off_by_quarter', 'balance:ts_only',
-                    'balance:missing_element', 'balance:empty_composition', 'formula:repeat', 'formula:omitted_count', 'formula:three_letter']
+                    'balance:missing_element', 'balance:empty_composition', 'balance:zero_count_entry', 'formula:repeat', 'formula:omitted_count', 'formula:three_letter']
 REQUIRED_PROBES = ['_parse_reaction_state', '_parse_reaction', '_write_reaction_state', 'Reaction.from_string',
                    'Reaction.to_string', 'Reaction.check_element_balance', 'parse_formula', 'ring.read_reactions']
 ASSUMPTIONS = ['delimiters that occur inside a species name or inside the printed numerals (e.g. "." with '
@@ -192,6 +192,12 @@ def _gen_balance(rng):
     ts = None
     if rng.random() < 0.5:
         ts = [[{'name': 'TS', 'elements': {e: float(t) for e, t in tot.items()}}, 1]]
+    # explicit zero-count entries (what an element.X spreadsheet column holding 0 produces): contribute nothing
+    if rng.random() < 0.3:
+        for side in (reactants, products):
+            for sp_, _ in side:
+                if rng.random() < 0.5:
+                    sp_['elements'][rng.choice(['Ar', 'He', 'Cl'])] = 0
     # a species without atoms (a vacant site): legal, contributes nothing; listed first on its side half the time
     if rng.random() < 0.35:
         site = {'name': 'VAC', 'elements': {}}
@@ -214,7 +220,8 @@ def _gen_balance(rng):
     return {'kind': 'balance', 'mode': mode, 'reactants': reactants, 'products': products, 'ts': ts}
 
 
-SYMS = ['H', 'C', 'O', 'N', 'S', 'P', 'F', 'K', 'Pt', 'Ni', 'Cu', 'Fe', 'Al', 'Cl', 'He', 'Uut', 'Uup']
+SYMS = ['H', 'C', 'O', 'N', 'S', 'P', 'F', 'K', 'Pt', 'Ni', 'Cu', 'Fe', 'Al', 'Cl', 'He', 'Uut', 'Uup', 'Na', 'Ne', 'No',
+        'In', 'Y', 'U', 'Li']
 
 
 def _gen_formula(rng):
@@ -247,6 +254,11 @@ def directed(tier):
               'reactants': [['A', 1.9999999]], 'products': [['B', 2.0000001]], 'ts': None, 'near_integer': True})
     D.append({'kind': 'formula', 'tokens': [['C', None], ['H', 3], ['C', None], ['H', 2], ['O', None], ['H', None]]})
     D.append({'kind': 'formula', 'tokens': [['Al', 2], ['O', 3]]})
+    # formulas that spell words a reader might treat as "empty" / special
+    for toks in ([['Na', None], ['N', None]], [['N', None], ['O', None], ['Ne', None]], [['No', None], ['Ne', None]],
+                 [['In', None], ['F', None]], [['N', None], ['U', None], ['Li', None], ['Li', None]],
+                 [['Na', None], ['N', 3]], [['N', None], ['Na', None]], [['Y', None]], [['No', None]]):
+        D.append({'kind': 'formula', 'tokens': toks})
     D.append({'kind': 'formula', 'tokens': [['Pt', 100]]})
     return D
 
@@ -477,6 +489,8 @@ def _balance_case(spec, ctx):
     ctx.cls('balance:' + spec['mode'])
     if any(not s_['elements'] for s_, _ in spec['reactants'] + spec['products']):
         ctx.cls('balance:empty_composition')
+    if any(v == 0 for s_, _ in spec['reactants'] + spec['products'] for v in s_['elements'].values()):
+        ctx.cls('balance:zero_count_entry')
     ctx.nontrivial(spec['mode'] != 'balanced' or spec['ts'] is not None)
     def mk(side):
         if side is None:
